@@ -68,6 +68,9 @@ func (vm *VM) runRecoverable() (err error) {
 	defer func() {
 		if panicking {
 			msg := recover()
+			// A panic raised inside reflect.Select (send on a closed
+			// channel) leaves the instruction before it empties vm.cases.
+			vm.cases = vm.cases[:0]
 			err = vm.convertPanic(msg)
 		}
 	}()
